@@ -117,11 +117,26 @@ fn main() {
                         #[cfg(feature = "extras")]
                         NodeTag(x, _) => fix(x),
                         _ => {} } } fix(&mut r.expr); r }).collect();
+                // some literals mix ASCII, non-ASCII and characters that must be escaped
+                let rules: Vec<Rule> = rules.into_iter().map(|mut r| { fn rich(e: &mut Expr, rng: &mut Rng) { use Expr::*; match e { Str(s) | Insens(s) => { if rng.chance(1, 5) { *s = rng.pick(&["aé", "é→\n", "\"q\\", "a\tb", "嗨a", "x\u{0}", "→'"]).to_string(); } }
+                        RepExact(x, _) | RepMax(x, _) | RepMinMax(x, _, _) | RepMin(x, _) | PosPred(x) | NegPred(x) | Opt(x) | Rep(x) | RepOnce(x) | Push(x) => rich(x, rng), Seq(a, b) | Choice(a, b) => { rich(a, rng); rich(b, rng) }
+                        #[cfg(feature = "extras")]
+                        NodeTag(x, _) => rich(x, rng),
+                        _ => {} } } rich(&mut r.expr, &mut rng); r }).collect();
                 for k in 0..(if thorough { 5 } else { 3 }) { let l = format!("Y {} {}", rng.next() % 1000000 + k, show_rules(&rules)); let (i, v) = eval_line(&l, &mut stats); out.push(l, i, v); }
             }
             // literal bodies: every escape form, valid and invalid
             let pieces = ["a", "é", "\\n", "\\r", "\\t", "\\\\", "\\0", "\\\"", "\\'", "\\x41", "\\x7f", "\\x80", "\\xFF", "\\xG1", "\\x4", "\\u{41}", "\\u{e9}", "\\u{1F600}", "\\u{10FFFF}", "\\u{110000}", "\\u{D800}", "\\u{0}", "\\u{00}", "\\u{0000041}", "\\u{}", "\\u{4G}", "\\u41", "\\q", "\\", "'", " "];
-            for _ in 0..(if thorough { 40000 } else { 6000 }) { let n = rng.range(0, 4); let mut b = String::new(); for _ in 0..n { b.push_str(*rng.pick(&pieces[..])); } let l = format!("Q {}", hexs(&b)); let (i, v) = eval_line(&l, &mut stats); out.push(l, i, v); }
+            // pieces whose meaning does not depend on what follows them: bodies made only of these have a known reading (oracle)
+            let meaning = |p: &str| -> Option<String> { Some(match p { "a" => "a".into(), "é" => "é".into(), "→" => "→".into(), "\\n" => "\n".into(), "\\r" => "\r".into(), "\\t" => "\t".into(), "\\\\" => "\\".into(), "\\0" => "\0".into(), "\\\"" => "\"".into(), "\\'" => "'".into(),
+                "\\x41" => "A".into(), "\\x7f" => "\u{7f}".into(), "\\x80" => "\u{80}".into(), "\\xFF" => "\u{ff}".into(), "\\u{41}" => "A".into(), "\\u{e9}" => "é".into(), "\\u{1F600}" => "\u{1F600}".into(), "\\u{10FFFF}" => "\u{10FFFF}".into(), "\\u{00}" => "\0".into(), "'" => "'".into(), " " => " ".into(), _ => return None }) };
+            let pieces2 = ["a", "é", "→", "\\n", "\\t", "\\\\", "\\\"", "\\x41", "\\xFF", "\\u{e9}", "\\u{1F600}", " "];
+            for k in 0..(if thorough { 40000 } else { 6000 }) {
+                let n = rng.range(0, 4); let mut b = String::new(); let mut want = Some(String::new());
+                for _ in 0..n { let p = if k % 3 == 0 { *rng.pick(&pieces2[..]) } else { *rng.pick(&pieces[..]) }; b.push_str(p); want = match (want, meaning(p)) { (Some(w), Some(m)) => Some(w + &m), _ => None }; }
+                let l = format!("Q {}", hexs(&b)); let (i, v) = eval_line(&l, &mut stats);
+                let v = match want { Some(w) if i != format!("str {}", hexs(&w)) => format!("FAIL the literal body {} must read as {} but reads as {}", hexs(&b), hexs(&w), i), _ => v };
+                out.push(l, i, v); }
             let samples: Vec<String> = out.ops.iter().step_by((out.ops.len() / 5).max(1)).take(5).map(|s| s.chars().take(220).collect::<String>()).collect();
             let stats_s = format!("{{\"evaluations\":{},\"distinct_nontrivial\":{},\"grammars\":{},\"extras\":{},\"observed\":{:?},\"samples\":{:?}}}", out.ops.len(), stats.get("Y_same").cloned().unwrap_or(0), ngram, EXTRAS, stats, samples);
             out.write(&dir, &stats_s);
